@@ -3,6 +3,9 @@ package main
 import (
 	"fmt"
 	"go/ast"
+	"io/fs"
+	"path/filepath"
+	"sort"
 	"strings"
 )
 
@@ -178,9 +181,158 @@ func (e *ext) c06Sections(dir, recv, fn, lean string) {
 	fmt.Fprintf(&e.out, "/-- %s.(%s).%s: sections (lock held?, ledger calls) -/\ndef %s : List (Bool × List Nat) := [%s]\n", dir, recv, fn, lean, strings.Join(parts, ", "))
 }
 
+// ---- who commits to the ledger (round 2): the premise "one scheduling goroutine per node ledger" of update_atomic_safe
+// is tied to the call sites.  For every non-test file of a directory: the enclosing functions ("Recv.Func" or "Func") of
+// the AST nodes selected by `pick`.
+func (e *ext) c06Enclosing(dir string, pick func(n ast.Node) bool) []string {
+	seen := map[string]bool{}
+	for _, f := range e.dir(dir) {
+		for _, d := range f.Decls {
+			fd, ok := d.(*ast.FuncDecl)
+			if !ok || fd.Body == nil {
+				continue
+			}
+			name := fd.Name.Name
+			if fd.Recv != nil && len(fd.Recv.List) > 0 {
+				t := fd.Recv.List[0].Type
+				if st, ok := t.(*ast.StarExpr); ok {
+					t = st.X
+				}
+				name = c06Expr(t) + "." + name
+			}
+			ast.Inspect(fd.Body, func(n ast.Node) bool {
+				if n != nil && pick(n) {
+					seen[name] = true
+				}
+				return true
+			})
+		}
+	}
+	var out []string
+	for k := range seen {
+		out = append(out, k)
+	}
+	sort.Strings(out)
+	return out
+}
+
+func c06Strs(xs []string) string {
+	var p []string
+	for _, x := range xs {
+		p = append(p, leanStr(x))
+	}
+	return "[" + strings.Join(p, ", ") + "]"
+}
+
+// c06CallOn: a call <recv>.<name>(...) whose receiver expression ends with recvSuffix ("" = any receiver).
+func c06CallOn(n ast.Node, recvSuffix string, names ...string) bool {
+	c, ok := n.(*ast.CallExpr)
+	if !ok {
+		return false
+	}
+	recv, name, ok := c06Sel(c)
+	if !ok || !strings.HasSuffix(recv, recvSuffix) {
+		return false
+	}
+	for _, x := range names {
+		if x == name {
+			return true
+		}
+	}
+	return false
+}
+
+func (e *ext) c06CommitSites() {
+	d := "pkg/scheduler/plugins/nodenumaresource"
+	upd := e.c06Enclosing(d, func(n ast.Node) bool { return c06CallOn(n, "esourceManager", "Update") || c06CallOn(n, "manager", "Update") })
+	rel := e.c06Enclosing(d, func(n ast.Node) bool { return c06CallOn(n, "esourceManager", "Release") || c06CallOn(n, "manager", "Release") })
+	asg := e.c06Enclosing(d, func(n ast.Node) bool {
+		a, ok := n.(*ast.AssignStmt)
+		if !ok {
+			return false
+		}
+		for _, l := range a.Lhs {
+			if s, ok := l.(*ast.SelectorExpr); ok && s.Sel.Name == "allocation" {
+				return true
+			}
+		}
+		return false
+	})
+	alc := e.c06Enclosing(d, func(n ast.Node) bool { return c06CallOn(n, "p", "allocate") })
+	fmt.Fprintf(&e.out, "/-- functions of the package that call <resourceManager>.Update (the commit of a read…commit round, or the informer's re-assertion) -/\ndef ledgerUpdateCallers : List String := %s\n", c06Strs(upd))
+	fmt.Fprintf(&e.out, "/-- functions of the package that call <resourceManager>.Release -/\ndef ledgerReleaseCallers : List String := %s\n", c06Strs(rel))
+	fmt.Fprintf(&e.out, "/-- functions that assign <state>.allocation (what Reserve commits) -/\ndef allocationAssigners : List String := %s\n", c06Strs(asg))
+	fmt.Fprintf(&e.out, "/-- functions that call Plugin.allocate -/\ndef allocateCallers : List String := %s\n", c06Strs(alc))
+	// who runs the Reserve plugins, and who reaches the resource manager from outside the package: all of pkg/scheduler
+	var runners, external []string
+	inUntil := 0
+	root := filepath.Join(e.repo, "pkg/scheduler")
+	_ = filepath.WalkDir(root, func(path string, de fs.DirEntry, err error) error {
+		if err != nil || !de.IsDir() {
+			return nil
+		}
+		rel, _ := filepath.Rel(e.repo, path)
+		for _, fn := range e.c06Enclosing(rel, func(n ast.Node) bool { return c06CallOn(n, "", "RunReservePluginsReserve") }) {
+			runners = append(runners, rel+":"+fn)
+		}
+		if rel != d {
+			for _, fn := range e.c06Enclosing(rel, func(n ast.Node) bool { return c06CallOn(n, "", "GetResourceManager") }) {
+				external = append(external, rel+":"+fn)
+			}
+		}
+		// Reserve calls lexically inside a closure handed to <parallelizer>.Until(ctx, len(podRequestsByNode), func(i int) {...})
+		for _, f := range e.dir(rel) {
+			ast.Inspect(f, func(n ast.Node) bool {
+				c, ok := n.(*ast.CallExpr)
+				if !ok || !c06CallOn(c, "", "Until") || len(c.Args) < 3 {
+					return true
+				}
+				lit, ok := c.Args[2].(*ast.FuncLit)
+				if !ok {
+					return true
+				}
+				has := false
+				ast.Inspect(lit.Body, func(m ast.Node) bool {
+					if m != nil && c06CallOn(m, "", "RunReservePluginsReserve") {
+						has = true
+					}
+					return true
+				})
+				if !has {
+					return true
+				}
+				// pieces = len(podRequestsByNode) and the closure starts by selecting podRequestsByNode[i]
+				byNode := false
+				if l, ok := c.Args[1].(*ast.CallExpr); ok && len(l.Args) == 1 && c06Expr(l.Fun) == "len" && c06Expr(l.Args[0]) == "podRequestsByNode" {
+					if len(lit.Body.List) > 0 {
+						if a, ok := lit.Body.List[0].(*ast.AssignStmt); ok && len(a.Rhs) == 1 {
+							if ix, ok := a.Rhs[0].(*ast.IndexExpr); ok && c06Expr(ix.X) == "podRequestsByNode" {
+								byNode = true
+							}
+						}
+					}
+				}
+				if byNode {
+					inUntil++
+				} else {
+					inUntil += 100 // a parallel Reserve that is not "one worker per node group"
+				}
+				return true
+			})
+		}
+		return nil
+	})
+	sort.Strings(runners)
+	sort.Strings(external)
+	fmt.Fprintf(&e.out, "/-- functions under pkg/scheduler that call RunReservePluginsReserve (dir:func) -/\ndef reserveRunners : List String := %s\n", c06Strs(runners))
+	fmt.Fprintf(&e.out, "/-- Reserve calls inside a parallelizer.Until closure: 1 per call that iterates `podRequestsByNode[i]` (one worker per node), 100 per any other -/\ndef reserveParallelSites : Nat := %d\n", inUntil)
+	fmt.Fprintf(&e.out, "/-- callers of Plugin.GetResourceManager outside the package (dir:func) -/\ndef resourceManagerExternalUsers : List String := %s\n", c06Strs(external))
+}
+
 func init() {
 	extractors["C06"] = func(e *ext) {
 		d := "pkg/scheduler/plugins/nodenumaresource"
+		e.c06CommitSites()
 		e.c06Sections(d, "resourceManager", "Update", "rmUpdate")
 		e.c06Sections(d, "resourceManager", "Release", "rmRelease")
 		e.c06Sections(d, "resourceManager", "GetAvailableCPUs", "rmGetAvailableCPUs")
